@@ -117,6 +117,29 @@ def _install_guards(stats: dict) -> None:
         core._PATCH_REGISTRATIONS[str.join] = _str_join_plain
         stats["str_join_model_coerces_str_subclasses"] = True
 
+    # --- CrossHair's getattr()/hasattr() patches run the attribute lookup with tracing
+    # suspended; a *property* that does arithmetic on symbolic ints (ForLoop.rindex =
+    # length - index, reached through getattr(self, key)) then dies with CrossHairInternal.
+    # Keep the name realization untraced, run the lookup itself traced.
+    from crosshair.tracers import NoTracing as _NT, ResumedTracing as _RT
+
+    _MISSING = _bl._MISSING
+    _orig_getattr_patch = _bl._getattr
+    _orig_hasattr_patch = _bl._hasattr
+
+    def _getattr_traced(obj, name, default=_MISSING):  # type: ignore[no-untyped-def]
+        with _NT():
+            if isinstance(name, AnySymbolicStr):
+                return _orig_getattr_patch(obj, name, default)
+            with _RT():
+                if default is _MISSING:
+                    return getattr(obj, name)
+                return getattr(obj, name, default)
+
+    if core._PATCH_REGISTRATIONS.get(getattr) is _orig_getattr_patch:
+        core._PATCH_REGISTRATIONS[getattr] = _getattr_traced
+        stats["getattr_patch_traced"] = True
+
     # --- guard 3: regex sentinel -------------------------------------------
     # CrossHair's symbolic regex model disagrees with CPython on this lexer
     # (Match.lastgroup for nested named groups).  A symbolic string must never
